@@ -346,6 +346,9 @@ def op(name, w, *args):
                 return a
             if b[2] & (b[2] - 1) == 0:
                 return op('Shl', w, a, const(32, b[2].bit_length() - 1))
+            sp = _mul_spread(w, a, b[2])
+            if sp is not None:
+                return sp
             return _lin(w, 0, [(a, b[2])])
         x, y = sorted((a, b), key=_key)
         return _i(('Mul', w, x, y))
@@ -473,6 +476,34 @@ def op(name, w, *args):
     if inv is not None and len(args) == 2 and args[1][0] == inv and len(args[1]) == 4 and args[1][2] is args[0]:
         return args[1][3]          # f^-1(k, f(k, x)) = x for a declared inverse pair on the same key object
     return _i((name, w) + tuple(args))
+
+
+def _mul_spread(w, a, c):
+    """carry-free multiplication: a has only its low k bits possibly set (a = zero-extension of a k-bit term) and the set
+    bits of the constant are at least k apart, so a * c is the concatenation of copies of those k bits"""
+    parts = _parts(a)
+    k = 0
+    pos = 0
+    for (t, lo, ln) in parts:
+        pos += ln
+        if not (t[0] == 'c' and t[2] == 0):
+            k = pos
+    if k == 0 or k > 16:
+        return None
+    low = slice_(a, 0, k)
+    bits = [i for i in range(w) if (c >> i) & 1]
+    if any(q - p < k for p, q in zip(bits, bits[1:])) or bits[-1] + k > w:
+        return None
+    out = []
+    cur = 0
+    for p in bits:
+        if p > cur:
+            out.append(const(p - cur, 0))
+        out.append(low)
+        cur = p + k
+    if cur < w:
+        out.append(const(w - cur, 0))
+    return cat(w, out)
 
 
 def tuple_fn(name, ws, args):
